@@ -647,6 +647,41 @@ func (c *SpecCtx) call(x *ast.CallExpr) SpecVal {
 		k := ft.elemKey(sl.Elem())
 		at := types.NewArray(sl.Elem(), 0)
 		return SpecVal{T: sel(ft.get(c.st, k), app("sl-base", v.T)), Typ: at, Sort: ft.d.sortOf(at)}
+	case "libm":
+		// libm("(time.Duration).Minutes", float64, recv, args...): result #0 of a deterministic library method, by its SSA name
+		bl, ok := x.Args[0].(*ast.BasicLit)
+		if !ok {
+			c.fail("libm: first argument must be a string literal")
+		}
+		mname, _ := strconv.Unquote(bl.Value)
+		rt := c.resolveType(x.Args[1])
+		var as []Term
+		var sorts []Sort
+		for _, a := range x.Args[2:] {
+			v := c.tr(a)
+			as = append(as, v.T)
+			sorts = append(sorts, v.Sort)
+		}
+		un := fmt.Sprintf("uf!%s#0", mname)
+		ft.d.fun(un, sorts, ft.d.sortOf(rt))
+		return c.mk(app(q(un), as...), rt)
+	case "libcalln":
+		// libcalln(k, pkg.Func, args...): the k-th result of a deterministic library function
+		kv := c.tr(x.Args[0])
+		k, _ := strconv.Atoi(kv.T)
+		sig := c.lookupFuncSig(x.Args[1])
+		fname := normName(exprString(x.Args[1]))
+		var as []Term
+		var sorts []Sort
+		for _, a := range x.Args[2:] {
+			v := c.tr(a)
+			as = append(as, v.T)
+			sorts = append(sorts, v.Sort)
+		}
+		rt := sig.Results().At(k).Type()
+		un := fmt.Sprintf("uf!%s#%d", fname, k)
+		ft.d.fun(un, sorts, ft.d.sortOf(rt))
+		return c.mk(app(q(un), as...), rt)
 	case "libcall":
 		// libcall(pkg.Func, args...): the (first) result of a deterministic library function of scalar arguments
 		sig := c.lookupFuncSig(x.Args[0])
@@ -666,7 +701,7 @@ func (c *SpecCtx) call(x *ast.CallExpr) SpecVal {
 		sig := c.lookupFuncSig(x.Args[0])
 		fname := normName(exprString(x.Args[0]))
 		if !strings.Contains(fname, ".") && c.pkg != nil {
-			fname = c.pkg.Name() + "." + fname
+			fname = pkgKey(c.pkg) + "." + fname
 		}
 		rest := x.Args[1:]
 		var idx SpecVal
@@ -729,6 +764,15 @@ func (c *SpecCtx) call(x *ast.CallExpr) SpecVal {
 		}
 		c.fail("addr(): no field %s", se.Sel.Name)
 	}
+	if name == "min" || name == "max" {
+		a, b := c.tr(x.Args[0]), c.tr(x.Args[1])
+		if a.Sort == "Int" && b.Sort == "Int" {
+			if name == "min" {
+				return SpecVal{T: ite(app("<=", a.T, b.T), a.T, b.T), Typ: a.Typ, Sort: "Int"}
+			}
+			return SpecVal{T: ite(app(">=", a.T, b.T), a.T, b.T), Typ: a.Typ, Sort: "Int"}
+		}
+	}
 	// type conversion by name
 	if id, ok := x.Fun.(*ast.Ident); ok && len(x.Args) == 1 {
 		if c.isTypeName(id.Name) {
@@ -737,7 +781,14 @@ func (c *SpecCtx) call(x *ast.CallExpr) SpecVal {
 			if v.Sort == "nil" {
 				return SpecVal{T: ft.d.zero(t), Typ: t, Sort: ft.d.sortOf(t)}
 			}
-			return SpecVal{T: v.T, Typ: t, Sort: ft.d.sortOf(t)}
+			ts := ft.d.sortOf(t)
+			if v.Sort == "F64" && ts == "Int" {
+				return SpecVal{T: app(ft.ufun("f2i", []Sort{"F64"}, "Int"), v.T), Typ: t, Sort: ts}
+			}
+			if v.Sort == "Int" && ts == "F64" {
+				return SpecVal{T: app(ft.ufun("i2f", []Sort{"Int"}, "F64"), v.T), Typ: t, Sort: ts}
+			}
+			return SpecVal{T: v.T, Typ: t, Sort: ts}
 		}
 	}
 	if se, ok := x.Fun.(*ast.SelectorExpr); ok && len(x.Args) == 1 {
@@ -753,7 +804,7 @@ func (c *SpecCtx) call(x *ast.CallExpr) SpecVal {
 	// spec function
 	var sf *SpecFunc
 	if c.pkg != nil {
-		sf = ft.eng.cons.Specs[c.pkg.Name()+"."+name]
+		sf = ft.eng.cons.Specs[pkgKey(c.pkg)+"."+name]
 	}
 	if sf == nil {
 		sf = ft.eng.cons.Specs[name]
@@ -979,7 +1030,7 @@ func (ft *FT) ghostKey(sf *SpecFunc, ptypes []types.Type, rtype types.Type) (str
 func (c *SpecCtx) ghostByName(name string) (*SpecFunc, []types.Type, types.Type) {
 	var sf *SpecFunc
 	if c.pkg != nil {
-		sf = c.ft.eng.cons.Specs[c.pkg.Name()+"."+name]
+		sf = c.ft.eng.cons.Specs[pkgKey(c.pkg)+"."+name]
 	}
 	if sf == nil {
 		sf = c.ft.eng.cons.Specs[name]
